@@ -45,6 +45,9 @@ pub struct Style {
     /// give an annotated variable binder the name of a type alias that is used only in its own annotation
     /// (`let ty7 = D0 that … fn (ty7 : ty7) => … ty7 …`): a binder does not scope over its own annotation
     pub pun_binders: bool,
+    /// print abstractions in checked positions as copattern clauses: `comatch | .d p q r => body end` for a comatch arm whose
+    /// body is a chain of abstractions, `comatch | p q r => body end` for a bare chain
+    pub copattern_clauses: bool,
 }
 
 impl Style {
@@ -63,6 +66,7 @@ impl Style {
             block_shuffle: 0,
             erase_monadic: false,
             pun_binders: false,
+            copattern_clauses: false,
         }
     }
     pub fn describe(&self) -> String {
@@ -77,7 +81,7 @@ impl Style {
             if self.telescopes { "+telescopes" } else { "" },
             if self.field_suffix.is_empty() { "" } else { "+renamed-fields" },
             if self.standard_builtin { "+std-builtin" } else { "" },
-        ) + if self.block_lets { "+blocks" } else { "" } + if self.block_shuffle != 0 { "+shuffled-blocks" } else { "" } + if self.pun_binders { "+pun-binders" } else { "" }
+        ) + if self.block_lets { "+blocks" } else { "" } + if self.block_shuffle != 0 { "+shuffled-blocks" } else { "" } + if self.pun_binders { "+pun-binders" } else { "" } + if self.copattern_clauses { "+copattern-clauses" } else { "" }
     }
 }
 
@@ -545,6 +549,11 @@ impl<'a> Printer<'a> {
                     format!("{}let {} = {} in\n{}{}", injected_before, p, v, injected_after, t)
                 }
             }
+            | Comp::Fn { .. } if self.style.copattern_clauses && checked && self.mutation.is_none() && matches!(ty, CTy::Fun(..)) => {
+                let (pats, inner, inner_ty, vis2) = self.clause_patterns(c, ty.clone(), vis);
+                let b = self.comp(inner, &inner_ty, true, &vis2);
+                format!("comatch\n| {} => {}\nend", pats.join(" "), b)
+            }
             | Comp::Fn { pat, ty: pty, body } => {
                 let result = match ty {
                     | CTy::Fun(_, r) => (**r).clone(),
@@ -626,6 +635,12 @@ impl<'a> Printer<'a> {
                 let dropped: Option<usize> = if !arms.is_empty() && self.site("missing-comatch-arm") { Some(self.rng.below(arms.len())) } else { None };
                 for (k, (idx, body)) in arms.iter().enumerate() {
                     if dropped == Some(k) {
+                        continue;
+                    }
+                    if self.style.copattern_clauses && self.mutation.is_none() && matches!(body, Comp::Fn { .. }) {
+                        let (pats, inner, inner_ty, vis2) = self.clause_patterns(body, d.dtors[*idx].1.clone(), vis);
+                        let b = self.comp(inner, &inner_ty, true, &vis2);
+                        out.push_str(&format!("\n| {} {} => {}", d.dtors[*idx].0, pats.join(" "), b));
                         continue;
                     }
                     let b = self.comp(body, &d.dtors[*idx].1, true, vis);
@@ -734,6 +749,27 @@ impl<'a> Printer<'a> {
                 }
             }
         }
+    }
+
+    /// The leading abstractions of `c` as copattern-clause patterns: returns (patterns text, body, body type, scope).
+    /// Binders are named as for `fn`; their annotations are dropped (the clause is printed in a checked position).
+    fn clause_patterns<'c>(&mut self, mut c: &'c Comp, mut ty: CTy, vis: &Vec<(String, VarId)>) -> (Vec<String>, &'c Comp, CTy, Vec<(String, VarId)>) {
+        let mut vis2 = vis.clone();
+        let mut pats = Vec::new();
+        while let Comp::Fn { pat, ty: _, body } = c {
+            let result = match &ty {
+                | CTy::Fun(_, r) => (**r).clone(),
+                | _ => break,
+            };
+            let body_ref: &Comp = body;
+            self.pat_names(pat, &|x| free_in_comp(body_ref, x), &mut vis2, &mut Vec::new());
+            let p = self.pat(pat);
+            // a constructor pattern is an application: delimit it
+            pats.push(if p.starts_with('+') { format!("({})", p) } else { p });
+            c = body;
+            ty = result;
+        }
+        (pats, c, ty, vis2)
     }
 
     /// Print a computation in head position of an application / destructor (must synthesise, must be tight).
